@@ -75,25 +75,33 @@ MembersPunct == <<S("str", "a.b"), S("str", "x y"), S("str", "[z]"), S("str", "/
 Ops == {"=", "^", "$", "%", "<", ">", "<=", ">=", "=~"}
 Lowers == {LowerOf[c] : c \in Uppers}
 SafeCh == Digits \cup Uppers \cup Lowers \cup {"."}
-SimpleText(t) == t # "" /\ \A i \in 1..Len(t) : Ch(t, i) \in SafeCh
+SimpleText(t) == t # "" /\ \A i \in 1..Len(t) : Ch(t, i) \in SafeCh       \* can be written as it is
+\* can be written with backslash escapes: the characters the path syntax gives a meaning to; a term that begins and
+\* ends with the same quote character loses them in the parser (known finding F-C08-1) and is left out
+EscCh == SafeCh \cup {"/", "[", "]", "(", ")", "'", "\"", " ", "^", "$", "%"}
+EscText(t) == /\ t # "" /\ \A i \in 1..Len(t) : Ch(t, i) \in EscCh
+              /\ ~(Ch(t, 1) \in {"'", "\""} /\ Ch(t, Len(t)) = Ch(t, 1))
+PlainSp(T) == SimpleText(T.term)
+EscSp(T) == T.op # "=~" /\ HasPunct(T.term) /\ EscText(T.term)
+Spellings(T) == (IF PlainSp(T) THEN {Expr(T)} ELSE {}) \cup (IF EscSp(T) THEN {ExprEsc(T)} ELSE {})
 FixedTerms == IF Rich THEN {"a", "1", "zz", "A", "0.5", "b"} ELSE {"a", "1", "zz"}
 DocTexts(d, sx) == {d[i].v : i \in ScalarIds(d)} \cup {KeyOf(d, i).v : i \in KeyedIds(d)} \cup AnchorNames(d) \cup KAnchorNames(sx)
-TermsOf(d, sx) == {t \in DocTexts(d, sx) : SimpleText(t)} \cup FixedTerms
-Ts(d, sx) == {Terms(inv, op, t) : inv \in BOOLEAN, op \in Ops, t \in TermsOf(d, sx)}
+TermsOf(d, sx) == {t \in DocTexts(d, sx) : SimpleText(t) \/ EscText(t)} \cup FixedTerms
+Ts(d, sx) == {T \in {Terms(inv, op, t) : inv \in BOOLEAN, op \in Ops, t \in TermsOf(d, sx)} : PlainSp(T) \/ EscSp(T)}
 
 \* Every comparison any document of this configuration can ask for, evaluated once (TLC evaluates a
 \* constant definition a single time): the universe of haystacks and terms is fixed by the pools.
 PoolOf(sq) == {sq[i] : i \in 1..Len(sq)}
 SideAnchors == IF Family = "side" THEN {"K", "L", "M"} ELSE {}        \* key anchors K, L; the merged hash's anchor M
 HayU == {Hay(p.t, p.v) : p \in PoolOf(ScalarPool) \cup PoolOf(KeyPool) \cup PoolOf(SetPool)} \cup {Hay("str", a) : a \in AnchorPool \cup SideAnchors}
-TermU == {t \in {h.v : h \in HayU} : SimpleText(t)} \cup FixedTerms
-TU == {Terms(inv, op, t) : inv \in BOOLEAN, op \in Ops, t \in TermU}
+TermU == {t \in {h.v : h \in HayU} : SimpleText(t) \/ EscText(t)} \cup FixedTerms
+TU == {T \in {Terms(inv, op, t) : inv \in BOOLEAN, op \in Ops, t \in TermU} : PlainSp(T) \/ EscSp(T)}
 MT == [T \in TU |-> [h \in HayU |-> [m |-> Hit(T, h), s |-> SilentT(T, h)]]]
 HitM(T, h) == MT[T][h].m
 SilM(T, h) == MT[T][h].s
 
-\* T0: an expression is turned into exactly the terms it spells (checked once over the whole universe)
-ASSUME \A T \in TU : LET e == ExprTerms(Expr(T)) IN e.ok /\ e.inv = T.inv /\ e.op = T.op /\ e.term = T.term
+\* T0: an expression is turned into exactly the terms it spells, in either spelling (checked once over the whole universe)
+ASSUME \A T \in TU : \A sp \in Spellings(T) : LET e == ExprTerms(sp) IN e.ok /\ e.inv = T.inv /\ e.op = T.op /\ e.term = T.term
 
 (* ---- options ---- *)
 NOpts == 48
@@ -144,11 +152,13 @@ Cap(s) == IF Len(s) > ExprCap THEN SubSeq(s, 1, ExprCap) ELSE s
 \* 1..N in constant time but searches record-valued domains.
 \* (values used inside nested set constructors are handed over as fields of a variable bound by a set
 \* constructor - pk - because TLC re-evaluates LET definitions and arguments referenced from there)
-PerOptOut(n, xs, sg, cores) ==
-  {[o |-> n, x |-> LET cs == {c \in DOMAIN cores : cores[c] = g} IN Cap(SetToSeq({xs[i] : i \in {k \in DOMAIN sg : sg[k] \in cs}})),
+PerOptOut(n, xs, es, sg, cores) ==
+  {[o |-> n, x |-> LET cs == {c \in DOMAIN cores : cores[c] = g} IN Cap(SetToSeq({xs[i] : i \in {k \in DOMAIN sg : sg[k] \in cs}} \ {""})),
+    \* the backslash-escaped spellings of terms of the class (same terms, hence the same expectation)
+    spell |-> LET cs == {c \in DOMAIN cores : cores[c] = g} IN Cap(SetToSeq({es[i] : i \in {k \in DOMAIN sg : sg[k] \in cs}} \ {""})),
     exp |-> g.exp, hit |-> g.hit, mir |-> g.mir, cls |-> g.cls, info |-> g.info, log |-> g.log, ok |-> g.ok]
    : g \in {cores[c] : c \in DOMAIN cores}}
-PerOpt(d, sx, xs, tabs, n) ==       \* xs[j], tabs[j]: expression text and table of the j-th terms
+PerOpt(d, sx, xs, es, tabs, n) ==   \* xs[j], es[j], tabs[j]: plain and escaped expression text ("" = none) and table of the j-th terms
   LET O == OptOf(n)
       N == Len(tabs)
       sg == [j \in 1..N |-> Sig(d, sx, tabs[j], O)]
@@ -157,13 +167,14 @@ PerOpt(d, sx, xs, tabs, n) ==       \* xs[j], tabs[j]: expression text and table
       alt == [c \in classes |-> N + 1 - (CHOOSE k \in 1..N : sg[N + 1 - k] = c)]     \* last member
       cores == [c \in classes |-> LET g == Core(d, sx, tabs[rep[c]], O) IN
                                   [g EXCEPT !.ok = @ /\ (alt[c] = rep[c] \/ Core(d, sx, tabs[alt[c]], O) = g)]]
-  IN UNION {PerOptOut(n, xs, pk.sg, pk.cores) : pk \in {[sg |-> sg, cores |-> cores]}}
+  IN UNION {PerOptOut(n, xs, es, pk.sg, pk.cores) : pk \in {[sg |-> sg, cores |-> cores]}}
 \* (pk is bound by a set constructor, not by LET or as an argument: TLC hands a lazily evaluated argument on
 \* unevaluated into every iteration of a set constructor, and would rebuild the tables for each option)
 Cases(d, sx) ==
-  UNION {UNION {PerOpt(d, sx, pk.xs, pk.tabs, n) : n \in Sampled(d)} :
+  UNION {UNION {PerOpt(d, sx, pk.xs, pk.es, pk.tabs, n) : n \in Sampled(d)} :
          pk \in {LET tsq == SetToSeq(Ts(d, sx)) IN
-                 [xs |-> [j \in 1..Len(tsq) |-> Expr(tsq[j])], tabs |-> [j \in 1..Len(tsq) |-> TabWith(d, sx, tsq[j], HitM, SilM)]]}}
+                 [xs |-> [j \in 1..Len(tsq) |-> IF PlainSp(tsq[j]) THEN Expr(tsq[j]) ELSE ""],
+                  es |-> [j \in 1..Len(tsq) |-> IF EscSp(tsq[j]) THEN ExprEsc(tsq[j]) ELSE ""], tabs |-> [j \in 1..Len(tsq) |-> TabWith(d, sx, tsq[j], HitM, SilM)]]}}
 
 (* ---- the side family: documents derived from a generated document ---- *)
 \* key anchors: K on the key of position p, optionally an alias of it on a later pair with the same key text;
